@@ -15,8 +15,9 @@ RULE = ("seeded citation-dense documents with parallel cites, short-form paralle
         "extract_reference_citations is called and filter_citations applied once, twice and with "
         "the references repeated; non-trivial = result with >= 2 citations or a merge history that "
         "added >= 1 reference; distinct = distinct (tokenizer, input)")
-ASSUMPTIONS = ["reference citations are compared by (type, span) across repeated merges because "
-               "span-keyed de-duplication may keep either of two equal reference objects"]
+ASSUMPTIONS = ["when the same references are merged a second time, non-reference members are compared by "
+               "identity and order and the guarantees are re-checked; which of two overlapping reference "
+               "citations survives is not compared (it may depend on input order; see DESIGN.md false alarms)"]
 FLOORS = {
     "quick": {"results_ge3": 1000, "merge_histories": 300, "merge_histories_added_ref": 100,
               "contract:filter_citations": 3000, "adjacent_pairs": 8000},
@@ -120,11 +121,25 @@ def merge_history(text, cs, cfg, rec, rng):
         rec.violation("C03.merge_not_idempotent", case,
                       observed=dict(first=[(M.kind(c), c.span()) for c in merged][:30],
                                     second=[(M.kind(c), c.span()) for c in again][:30]))
-    key = lambda c: (id(c) if not isinstance(c, ReferenceCitation) else None, M.kind(c), c.span())  # noqa
-    if [key(c) for c in again2] != [key(c) for c in merged]:
-        rec.violation("C03.remerge_differs", case,
+    # merging the same references again: the property's guarantees must hold
+    # again (which of two overlapping *reference* citations survives may
+    # legitimately depend on input order, so references are not compared)
+    nonref = lambda lst: [id(c) for c in lst if not isinstance(c, ReferenceCitation)]  # noqa
+    if nonref(again2) != nonref(merged):
+        rec.violation("C03.remerge_changes_nonreferences", case,
                       observed=dict(first=[(M.kind(c), c.span()) for c in merged][:30],
                                     second=[(M.kind(c), c.span()) for c in again2][:30]))
+    for mon, obs in M.order(again2):
+        rec.violation("C03.remerge_" + mon.split(".")[1], case,
+                      observed=dict(obs, merged=[(M.kind(c), c.span()) for c in again2][:30]))
+    try:
+        again3 = filter_citations(again2)
+    except Exception:
+        return
+    if ids(again3) != ids(again2):
+        rec.violation("C03.remerge_not_idempotent", case,
+                      observed=dict(first=[(M.kind(c), c.span()) for c in again2][:30],
+                                    second=[(M.kind(c), c.span()) for c in again3][:30]))
 
 
 def run_shard(spec, rec):
